@@ -36,6 +36,10 @@ pub struct C14Scenario {
     pub hold_at_child: bool,
     pub first_end: End,
     pub phase_b: Vec<Kind>,
+    /// one more contender started while the holder is past the lock; the holder is ended the moment
+    /// the contender's failed bind() on the lock port has been observed (shim bind log)
+    #[serde(default)]
+    pub late: Option<Kind>,
     pub phase_d: Vec<Kind>,
     pub last: Kind,
     pub rand_seed: u64,
@@ -75,6 +79,7 @@ fn gen_c14(seed: u64, idx: usize, _tier: Tier) -> C14Scenario {
         hold_at_child,
         first_end,
         phase_b: (0..nb).map(|_| *rng.pick(&kinds)).collect(),
+        late: if rng.chance(1, 2) { Some(*rng.pick(&kinds)) } else { None },
         phase_d: (0..nd).map(|_| *rng.pick(&kinds)).collect(),
         last: *rng.pick(&kinds),
         rand_seed: rng.next_u64() % 1_000_000,
@@ -231,6 +236,40 @@ fn exec_c14(sc: &C14Scenario) -> Outcome {
         return out;
     }
     out.trace.push(format!("B: {} contenders, all lock errors, output directory unchanged", bs.len()));
+    // ---- phase B': a contender whose lost attempt is observed, then the holder ends at once
+    let mut late: Option<(String, usize, Kind)> = None;
+    if let Some(k) = sc.late {
+        let a = next_actor();
+        let bl = w.root.join(".bind.log");
+        let _ = std::fs::remove_file(&bl);
+        let env = vec![
+            ("LD_PRELOAD".to_string(), crate::world::shim_path().to_string_lossy().into_owned()),
+            ("FSFAULT_BINDLOG".to_string(), bl.to_string_lossy().into_owned()),
+        ];
+        let p = match w.start_m(&a, &kind_args(k, &sc.spec), points, &env) {
+            Ok(p) => p,
+            Err(e) => return Outcome::skip(&format!("start: {}", e)),
+        };
+        let want = format!(" {} -1 ", w.ports.lock);
+        let t0 = std::time::Instant::now();
+        loop {
+            let txt = std::fs::read_to_string(&bl).unwrap_or_default();
+            if txt.lines().any(|l| l.contains(&want)) {
+                break;
+            }
+            if txt.lines().any(|l| l.contains(&format!(" {} 0 ", w.ports.lock))) {
+                out.violate("overlap", "bind_succeeded_while_held", format!("{:?} bound the lock port while {:?} was past the lock", k, sc.first));
+                return out;
+            }
+            if t0.elapsed() > hang {
+                // never tried to take the lock at all?
+                break;
+            }
+            std::thread::sleep(Duration::from_micros(300));
+        }
+        out.fault("holder_ended_right_after_contender_lost_its_attempt", 1);
+        late = Some((a, p, k));
+    }
     // ---- phase C: the holder ends
     {
         let ctl = w.ctl.as_mut().unwrap();
@@ -263,11 +302,36 @@ fn exec_c14(sc: &C14Scenario) -> Outcome {
                 }
             }
         }
-        // reap anything the holder left behind
+        // reap anything the holder left behind (events of other actors stay buffered)
         ctl.kill(p0);
-        let _ = ctl.drain_buffer();
     }
     out.trace.push(format!("C: holder ended by {:?}", sc.first_end));
+    if let Some((a, p, k)) = late {
+        // it tried while the lock was held: it must fail with a lock error, not wait its turn
+        match wait_lock_or_exit(w.ctl.as_mut().unwrap(), &a, p, hang) {
+            Reached::Exited(x) => {
+                out.sub_evals += 1;
+                if !is_lock_error(&x) {
+                    out.violate("loser_exit", "no_lock_error_after_holder_left", format!("{:?} attempted the lock while {:?} held it (bind failed), yet ended with exit {:?} {:?} instead of a lock error", k, sc.first, x.code, String::from_utf8_lossy(&x.stderr).trim()));
+                    return out;
+                }
+            }
+            Reached::Parked(_) => {
+                out.violate("loser_exit", "waited_for_the_lock", format!("{:?} attempted the lock while {:?} held it (its bind failed) but then acquired it after the holder ended instead of exiting with a lock error", k, sc.first));
+                return out;
+            }
+            Reached::Timeout => {
+                out.violate("loser_exit", "hung", format!("{:?} neither failed nor acquired", k));
+                return out;
+            }
+        }
+        let ctl = w.ctl.as_mut().unwrap();
+        if ctl.peek(|e| matches!(e, Ev::Hello(h) if h.actor == a)) {
+            out.violate("loser_side_effect", "started_executable", format!("{:?} lost the lock but started an executable", k));
+            return out;
+        }
+        out.trace.push("B': late contender failed with a lock error although the holder left right after its attempt".into());
+    }
     // ---- phase D: several contenders started the instant after the holder was reaped
     let s3 = snap(&w, false);
     let mut ds = vec![];
@@ -348,7 +412,7 @@ fn exec_c14(sc: &C14Scenario) -> Outcome {
     kinds.sort();
     kinds.dedup();
     out.nontrivial = sc.phase_b.len() + sc.phase_d.len() + 2 >= 3 && kinds.len() >= 2 && sc.first_end != End::Go;
-    out.signature = format!("{:?}|{}|{:?}|{:?}|{:?}|{:?}", sc.first, sc.hold_at_child, sc.first_end, sc.phase_b, sc.phase_d, sc.last);
+    out.signature = format!("{:?}|{}|{:?}|{:?}|{:?}|{:?}|{:?}", sc.first, sc.hold_at_child, sc.first_end, sc.phase_b, sc.late, sc.phase_d, sc.last);
     out.steps = (sc.phase_b.len() + sc.phase_d.len() + 2) as u64;
     out
 }
@@ -398,7 +462,7 @@ impl Property for C14 {
         outv
     }
     fn rule(&self) -> String {
-        "4-10 invocations drawn from {run, checkpoint update, checkpoint delete, out delete --all} on one lock address, over a repository that already has a checkpoint and a completed run: (A) one invocation alone, parked right after lock acquisition (a run holder is in half of the cases released and held at its first child instead); (B) 1-4 contenders started back-to-back while the holder is past the lock: each must exit non-zero with a lock error, start no executable, and leave a content-hash snapshot of the output directory unchanged; (C) the holder ends by normal exit, a failing child, or SIGKILL while parked; (D) 2-4 contenders started together the instant after the reap: exactly one gets past the lock (which one is the kernel's choice and is not recorded), the others fail with a lock error; (E) one more, alone, must acquire at its first attempt. Non-trivial = >= 3 contenders of >= 2 kinds and the holder ended by SIGKILL or failure; distinct = the scenario tuple".into()
+        "4-10 invocations drawn from {run, checkpoint update, checkpoint delete, out delete --all} on one lock address, over a repository that already has a checkpoint and a completed run: (A) one invocation alone, parked right after lock acquisition (a run holder is in half of the cases released and held at its first child instead); (B') in half of the scenarios one more contender is started and the holder is ended the moment that contender's failed bind() on the lock port has been observed through the shim: it must still exit with a lock error rather than wait its turn; (B) 1-4 contenders started back-to-back while the holder is past the lock: each must exit non-zero with a lock error, start no executable, and leave a content-hash snapshot of the output directory unchanged; (C) the holder ends by normal exit, a failing child, or SIGKILL while parked; (D) 2-4 contenders started together the instant after the reap: exactly one gets past the lock (which one is the kernel's choice and is not recorded), the others fail with a lock error; (E) one more, alone, must acquire at its first attempt. Non-trivial = >= 3 contenders of >= 2 kinds and the holder ended by SIGKILL or failure; distinct = the scenario tuple".into()
     }
     fn components(&self) -> Value {
         json!({
